@@ -58,7 +58,7 @@ def run(ctx):
     for k, cp in enumerate(cps):
         tp = os.path.join(ctx.scratch, "trace%02d.ndjson" % k)
         traces.append(tp)
-        argvs.append([drv, "--cases", cp, "--out", tp, "--random", str(60 if quick else 600), "--salt", str(k)])
+        argvs.append([drv, "--cases", cp, "--out", tp, "--random", str(60 if quick else 200), "--salt", str(k)])
     outs = ctx.run_parallel(argvs)
     nev = sum(int(o.split("events=")[1].split()[0]) for o in outs)
     # 3. every event judged against the reference recomputed in TLA+
